@@ -476,7 +476,11 @@ fn gen_free_element(
 
 /// Pick n with 80 % mass on <= 4.
 pub fn pick_n(rng: &mut Rng, max_n: usize) -> usize {
-    let n = if rng.chance(4, 5) { rng.range(1, 4) } else { rng.range(5, 7) };
+    let n = if rng.chance(4, 5) {
+        rng.range(1, 4)
+    } else {
+        rng.range(5, max_n.max(7))
+    };
     n.min(max_n).max(1)
 }
 
